@@ -107,7 +107,10 @@ def gen_messages(r, module, specs, header_frame):
     for _ in range(n):
         k = r.random()
         if k < 0.15 or not letters:
-            recs.append(r.choice([b"Z|1|unknown", b"X", b"zz|1", b"|nothing", b"9|x"]))
+            foreign = [l for l in "HPORCQML" if l not in specs]        # defined generically, but not by this instrument
+            pool = [b"Z|1|unknown", b"X", b"zz|1", b"|nothing", b"9|x"]
+            pool += [l.encode() + b"|1|" + r.choice([b"text", b"one|two", b"^^^x|5"]) for l in foreign] * 2
+            recs.append(r.choice(pool))
             unknown += 1
         elif k < 0.20:
             l = r.choice(letters)
